@@ -19,15 +19,15 @@ def ccTabs : Tabs where
   lowerC c := RTV.Preprocess.lowerFull RTV.Gen.lowerPairs RTV.Gen.lowerExpanding c
   re := RTV.Gen.reTables
 
-def showAtom : Atom → String
+def ccShowAtom : Atom → String
   | .int i => s!"i:{i}"
   | .bool b => "b:" ++ showBool b
   | .str s => "s:" ++ showCps s
   | .none => "n"
 
-def showVal : Val → String
-  | .one a => showAtom a
-  | .record fs => "r:" ++ "|".intercalate (fs.map showAtom)
+def ccShowVal : Val → String
+  | .one a => ccShowAtom a
+  | .record fs => "r:" ++ "|".intercalate (fs.map ccShowAtom)
 
 def hCcEval : Handler
   | idx :: name :: nstr :: rest =>
@@ -37,7 +37,7 @@ def hCcEval : Handler
       let k := parseNat nstr
       let strs := (rest.take k).map parseCps
       let ints := (rest.drop k).map parseInt
-      showVal (m.run ccTabs strs ints)
+      ccShowVal (m.run ccTabs strs ints)
     | none => "err:KeyError"
   | _ => "err:Other"
 
